@@ -67,9 +67,13 @@ def add_events(args):
     (p, a, b), pairs, repsets, seed = args
     ec, cname = setup()
     cf = ec.CurveFp(p, a, b, 1)
+    # an equal curve object of its own (what unpickling, copying or a second module constructing the same curve gives):
+    # every other pair takes its second operand from it
+    cf_twin = ec.CurveFp(p, a, b, 1)
     c = {"p": p, "a": a % p, "b": b % p}
     events, keys = [], []
     Z0 = {"t": [0, 1, 0]}
+    npair = 0
 
     def ev(op, A, B, out, pts, want, **kw):
         e = {"c": c, "op": op, "A": {"t": A}, "B": {"t": B} if B is not None else Z0, "out": out, "k": 0, "ka": 0, "kb": 0,
@@ -81,8 +85,9 @@ def add_events(args):
 
     for (P, Q) in pairs:
         for (ra, rb) in repsets:
+            npair += 1
             A = make(ec, cf, P, ra if P is not None else "inf", p)
-            B = make(ec, cf, Q, rb if Q is not None else "inf", p)
+            B = make(ec, cf_twin if npair % 2 else cf, Q, rb if Q is not None else "inf", p)
             tA, tB = triple(ec, cname, A), triple(ec, cname, B)
             want = toy.t_add(P, Q, p, a)
             ev("add", tA, tB, out_point(ec, lambda: A + B), [P, Q], want, ajac=isinstance(A, ec.PointJacobi))
